@@ -90,11 +90,20 @@ func scribble(t *rapid.T, w *sim.World, v *appstate.AppState) int {
 // view of a retained height returns exactly what was committed there (also
 // after a reorganisation replaced the block at that height), a non-retained
 // height yields an error.
-func TestViewsIsolatedAndExact(t *testing.T) {
+func TestViewsIsolatedAndExact(t *testing.T) { viewsTest(t, 28) }
+
+// The same over histories longer than the number of retained versions, so that
+// read-only views of pruned heights are requested as well (must be an error, not stale data).
+func TestViewsAcrossPruning(t *testing.T) { viewsTest(t, 165) }
+
+func viewsTest(t *testing.T, steps int) {
 	rapid.Check(t, func(t *rapid.T) {
 		committed := map[uint64]snapshot{}
 		viewWrites, reorgs := 0, 0
-		opt := sim.Options{MinActors: 3, MaxActors: 8, Replicas: 1, MaxReplicas: 3, Steps: 28, MaxTxPerStep: 5}
+		opt := sim.Options{MinActors: 3, MaxActors: 8, Replicas: 1, MaxReplicas: 3, Steps: steps, MaxTxPerStep: 5}
+		if steps > 100 {
+			opt.MaxTxPerStep = 2
+		}
 		opt.BetweenBlocks = func(h *sim.History) {
 			w := h.W
 			r := w.Replicas[0]
